@@ -266,6 +266,9 @@ def run_leg(leg, seed, tier, tmpdir, digests=False, workers=None):
                         leg.faults.append({'idx': -1, 'detail': f'bad summary: {e}: {line[:200]}'})
                 elif line.startswith('V '):
                     m = re.match(r'V (\d+) (\d+) (\S+) (\S+) (\d+) \| (.*)', line)
+                    if not m:
+                        leg.faults.append({'idx': -1, 'detail': f'unparseable violation line: {line[:200]}'})
+                        continue
                     leg.violations.append({'idx': int(m.group(1)), 'run_seed': int(m.group(2)), 'cls': m.group(3),
                                            'stable': m.group(4) == 'stable', 'nops': int(m.group(5)), 'detail': m.group(6)})
                 elif line.startswith('F '):
